@@ -98,7 +98,7 @@ func (ve *VimeoExtractor) getDataFromSrcURL(srcURL string) (string, map[string]s
 		srcURL = "http:" + srcURL
 	}
 
-	parsedURL, err := nurl.ParseRequestURI(srcURL)
+	parsedURL, err := nurl.Parse(srcURL)
 	if err != nil {
 		return "", nil
 	}
